@@ -792,9 +792,14 @@ func (e *Exec) resolveModifies(ents []ModEntry, all bool, env *SpecEnv) *modSet 
 func (e *Exec) havocModSet(s, pre *State, m *modSet) {
 	if m.all {
 		e.havocAll(s)
-		return
+		// a CONTRACT that says 'modifies *' may also have changed the modelled stores and ghost variables (only calls
+		// without any contract keep them: that assumption is reported per function)
+		// 'modifies *' is the heap; modelled stores and ghost variables change only when listed (handled below)
 	}
 	for _, fam := range sortedKeys(m.conds) {
+		if m.all && !storeGhostFam(fam) {
+			continue // already havocked with the rest of the heap
+		}
 		sig := m.sigs[fam]
 		old := e.cur(pre, fam, sig.Args, sig.Res)
 		nw := e.hhavoc(s, fam, sig.Args, sig.Res)
